@@ -10,6 +10,7 @@ import PasfmtModel.Proofs.ReconProps
 import PasfmtModel.Model.Mls
 import PasfmtModel.Proofs.RulesIdem
 import PasfmtModel.Proofs.SpacingIdem
+import PasfmtModel.Proofs.GapReadBack
 
 namespace Pasfmt.C03
 
@@ -85,5 +86,15 @@ theorem comment_formatter_idem (U : Bytes → Bool) (ft : FT) :
     computes the same spacing again, for every sequence of kinds and every original spacing -/
 theorem token_spacing_idem (l : List (Kind × Nat)) :
     spacingResult (respace l (spacingResult l)) = spacingResult l := spacingResult_idem l
+
+/-- the whitespace emitted for a non-ignored token with counters `(n, i, c, s)` is read back by
+    `FormattingData::from` as `n` line breaks and a blank run exactly as wide as indentation +
+    continuation + spaces (saturating at `u16::MAX`), for every configuration -/
+theorem emitted_gap_read_back (cfg : Config) (n i c s : Nat) :
+    FmtData.ofWs (replicateBytes n cfg.settings.nlStr ++ (replicateBytes i cfg.settings.indStr ++
+        replicateBytes c cfg.settings.contStr ++ List.replicate s 0x20)) false =
+      { ignored := false, nl := u16sat n, ind := 0, cont := 0,
+        sp := u16sat (replicateBytes i cfg.settings.indStr ++ replicateBytes c cfg.settings.contStr ++
+          List.replicate s 0x20).length } := ofWs_gap cfg n i c s
 
 end Pasfmt.C03
